@@ -338,3 +338,42 @@ Qed.
 (** without the decoder's patch of general.parameter_count, ParameterCount does panic (it passes no default) *)
 Lemma parameter_count_needs_decode : r_parameter_count [] = APanic PIndex.
 Proof. reflexivity. Qed.
+
+(** with at least one tensor the end offset is not before the tensor data offset *)
+Theorem decode_from_end_ge_toff base bytes maxArr d al :
+  (0 <= base)%Z -> (base + Z.of_nat (length bytes) < Z.of_N two63)%Z ->
+  decode_from base bytes maxArr = DOk d al -> d_tensors d <> [] -> (Z.of_N (d_toff d) <= d_end d)%Z.
+Proof.
+  intros Hb Hlen. unfold decode_from. set (ma := if (maxArr =? 0)%Z then 1024%Z else maxArr).
+  pose proof (G_rd_header ma bytes) as H.
+  destruct (rd_header ma bytes) as [[[ver kv0] ts] rest al0 | e al0 | p al0]; [|discriminate|discriminate].
+  destruct H as [Hl Hc]. cbv zeta. set (a := Z.of_N _).
+  destruct (Z.eqb_spec a 0) as [|Ha]; [discriminate|].
+  unfold go_pad_p. destruct (Z.eqb_spec a 0) as [|_]; [contradiction|].
+  set (pos := (base + Z.of_nat (length bytes - length rest))%Z).
+  assert (Ha32 : (0 < a <= Z.of_N two32)%Z).
+  { unfold a in *. pose proof (N.mod_lt (kv_uint val_u32 ((k_param_count, VNum 10 (total_params ts)) :: kv0) k_alignment 32) two32 ltac:(discriminate)).
+    unfold two32 in *. lia. }
+  assert (Hpos : (0 <= pos < Z.of_N two63)%Z) by (unfold pos; lia).
+  destruct (seek_tensors a pos ts) as [e|] eqn:Es; [|discriminate].
+  intro Hd. inversion Hd; subst d. cbn [d_end d_toff d_tensors]. intro Hne.
+  destruct ts as [|t r]; [contradiction|]. cbn [seek_tensors] in Es. cbv zeta in Es.
+  pose proof (go_pad_nonneg pos a ltac:(lia) ltac:(lia)) as Hpad.
+  assert (Hpadlt : (go_pad pos a < a)%Z).
+  { unfold go_pad. rewrite (Z.rem_mod_nonneg pos a) by lia. pose proof (Z.mod_pos_bound pos a ltac:(lia)).
+    rewrite Z.rem_mod_nonneg by lia. apply Z.mod_pos_bound. lia. }
+  destruct (wrapZ64_cases (pos + go_pad pos a)) as [[Hq1 E1]|[Hq1 E1]]; [unfold two32, two63, two64 in *; lia | | ].
+  2:{ destruct (Z.ltb_spec (wrapZ64 (pos + go_pad pos a)) 0); [discriminate | lia]. }
+  rewrite E1 in Es. destruct (Z.ltb_spec (pos + go_pad pos a) 0); [lia|].
+  pose proof (to_int64_lt (tensor_size (ti_kind t) (ti_shape t))) as Hszlt.
+  set (sz := to_int64 (tensor_size (ti_kind t) (ti_shape t))) in *.
+  destruct (Z.ltb_spec sz 0) as [|Hsz]; [discriminate|].
+  destruct (wrapZ64_cases (pos + go_pad pos a + sz)) as [[Hq2 E2]|[Hq2 E2]]; [unfold two32, two63, two64 in *; lia | | ].
+  2:{ destruct (Z.ltb_spec (wrapZ64 (pos + go_pad pos a + sz)) 0); [discriminate | lia]. }
+  rewrite E2 in Es. destruct (Z.ltb_spec (pos + go_pad pos a + sz) 0); [lia|].
+  assert (Hr : (0 <= pos + go_pad pos a + sz < Z.of_N two63)%Z) by lia.
+  pose proof (seek_tensors_forward a r _ e Ha32 Hr Es) as Hfw.
+  rewrite Z.mod_small by (unfold two32, two63, two64 in *; lia).
+  rewrite wrap64_small by (unfold two32, two63, two64 in *; lia).
+  rewrite Z2N.id by lia. lia.
+Qed.
